@@ -401,3 +401,63 @@ def fixture_check(tier):
 
 
 TASK.fixture_check = fixture_check
+
+
+# ---------------------------------------------------------------------------------- edge relations (C08 / C09)
+# The decimal note lattice is not closed under exact shifts, so the relations use a DYADIC note lattice (k/64 s):
+# onset distances 3/64 < 0.05 < 4/64, offset distances 12/64 < 0.2 < 13/64 - every distance keeps >= 0.003 s from
+# every tolerance, and x + d is exact for dyadic d.
+def dyadic_notes(phase, vels=None):
+    f0 = f0_of(phase)
+    b = Fr(phase, 4)
+    out = []
+    for on in (0, 3, 4):
+        for d in (16, 64):
+            for c in (0, 51):
+                n = (float(b + Fr(on, 64)), float(b + Fr(on + d, 64)), cents(f0, c))
+                if vels is None:
+                    out.append(n)
+                else:
+                    out.extend(n + (v,) for v in vels)
+    return out
+
+
+def edge_space(tier, phase):
+    from mc import lib
+    sides = list(lib.multisets(dyadic_notes(phase), 2))
+    return [(a, b) for a in sides for b in sides]
+
+
+def _map_notes(state, f, which=(0, 1)):
+    return tuple(tuple(f(n) for n in side) if i in which else side for i, side in enumerate(state))
+
+
+def _shift_edges(state):
+    return [("+%g" % d, _map_notes(state, lambda n, d=d: (float(Fr(n[0]) + Fr(d)), float(Fr(n[1]) + Fr(d))) + tuple(n[2:])))
+            for d in (1 / 64.0, 1.0, 1000.0)]
+
+
+def _perm_edges(state):
+    ref, est = state
+    out = [("reverse-both", (tuple(reversed(ref)), tuple(reversed(est))))]
+    if len(ref) > 1:
+        out.append(("reverse-ref", (tuple(reversed(ref)), est)))
+    if len(est) > 1:
+        out.append(("reverse-est", (ref, tuple(reversed(est)))))
+    return out
+
+
+def _scale_edges(state):
+    return [(nm, _map_notes(state, lambda n, k=k: (n[0], n[1], n[2] * k) + tuple(n[3:])))
+            for nm, k in (("x2", 2.0), ("x0.5", 0.5), ("x2^(7/12)", 2.0 ** (7 / 12.0)), ("x1.5", 1.5))]
+
+
+PRF_KEYS = ["Precision", "Recall", "F-measure"]
+TASK.edge_space = edge_space
+TASK.edges = {
+    "shift": {"apply": _shift_edges, "funcs": None, "keys": None},
+    # which maximum matching is returned may depend on the input order, so only P/R/F (which depend on its size) are
+    # claimed under note permutations - exactly what the property states
+    "permute": {"apply": _perm_edges, "funcs": None, "keys": PRF_KEYS},
+    "pitchscale": {"apply": _scale_edges, "funcs": None, "keys": None},
+}
